@@ -19,12 +19,16 @@ LEVEL_TEXT = ("Coq theorems over the code regenerated from the current source --
               "agree; for every threshold (0 and negatives included) and operator the event tables use the given threshold; for every list "
               "of pairs each count equals direct counting, tp+tn+fp+fn = number of pairs valid in both, and sums over groups add up. "
               "Proof is the right level because the decisive inputs are ties with the threshold / tolerance and the threshold value 0, "
-              "which no sampled input hits; the array plumbing around the kernels is tied by a correspondence check on every run.")
+              "which no sampled input hits; the array plumbing around the kernels is tied by a correspondence check on every run. The views of a "
+              "manager (round 4): for a counts dict in any key order the regenerated table reports each count under its own label; the regenerated "
+              "format_table is right for the key order the library builds, and for any order iff it reads by label (it reads by position: known "
+              "finding format-table-by-position, proved as a refutation); the translator refuses any method other than the constructors that "
+              "writes the manager's state.")
 LEVEL_NOTE = ("trusted: the custom translator sites of tools/sites/c08.py + Xval/C08_aux semantics (validated by correspondence on the full tie "
               "grid), the hand model of broadcasting against the threshold dimension, squeeze, mean and NaN-skipping sums (validated by "
               "correspondence); binary64 rounding of `comparison +- abs_tolerance` is not modelled (dyadic inputs only)")
 TECHNIQUE = "Coq proof over translator-regenerated discretisation/contingency kernels + extracted-model correspondence check"
-SITES = ["C08.modes", "C08.discretise", "C08.maps", "C08.init", "C08.event_tables", "C08.event_manager"]
+SITES = ["C08.modes", "C08.discretise", "C08.maps", "C08.init", "C08.event_tables", "C08.event_manager", "C08.views"]
 RULE = ("kernel: the full grid of 12 mode spellings x tolerances {None,0,1/4,1/2} x data values x thresholds on the dyadic grid k/4 chosen so "
         "that every value is on / within / outside the tolerance of some threshold, plus NaN and +-inf; arrays: 1-3 named dims of size 1-3 in "
         "shuffled dimension and coordinate order, NaN injected with p=0.15, threshold lists of 1-4 values (sorted, tied, unsorted, NaN, scalar), "
@@ -33,11 +37,25 @@ RULE = ("kernel: the full grid of 12 mode spellings x tolerances {None,0,1/4,1/2
         "when at least one non-NaN cell exists; precision stream: float32 / float16 / float64 data whose cells sit on the threshold rounded to "
         "the storage type, one unit in the last place and 1e-12 ... 0.4 either side of 1-3 decimal thresholds those types cannot hold (0.7, 0.1, "
         "0.001, 1/3, 0.3 next to 0.1+0.2, ...), tolerances None/0/1e-8/1e-6/1e-3/1/4; contingency: the same near-threshold values around the "
-        "threshold in force in 40% of the cases, non-dyadic event thresholds including the signature default 0.001")
+        "threshold in force in 40% of the cases, non-dyadic event thresholds including the signature default 0.001; round 4: +-inf as valid "
+        "forecast / observation values (12%), forecast / observation stored as (un)signed 8-64 bit integers (10% each), event tables stored as "
+        "bool / uint8-64 / int8-64 / float16-32, independently for fcst and obs; BasicContingencyManager from a counts dict whose five keys are "
+        "in a random permutation (0-d and 1-2-d counts, float and integer) read through get_counts / get_table / format_table; call sequences "
+        "of 2-4 valid transform requests on ONE BinaryContingencyManager with its own views checked before and after each; Datasets of 2-3 "
+        "variables whose NaN positions differ")
 ASSUMPTIONS = ["inputs of the correspondence are dyadic rationals, so `comparison +- abs_tolerance` is exact in binary64; non-dyadic inputs are tied to "
                "the model only where nothing is added to the threshold (tolerance None / 0, event operators)",
                "with a non-zero tolerance on non-dyadic inputs the exact oracle leaves a cell undecided when its distance from the threshold is within "
                "1e-12 of the tolerance (binary64 rounding of `comparison +- abs_tolerance`)"]
+
+# counters every complete run must have incremented (one per predicate family / input class): core.run_check reports the missing ones
+EXPECT_COUNTS = ["kernel_grid_points", "binary_discretise:ok", "binary_discretise_proportion:ok", "comparative_discretise:ok", "dtype:int64", "dtype:float32",
+                 "precision:dtype=float32", "precision:dtype=float16", "precision:proportion_checked", "contingency:near_threshold_values",
+                 "contingency:infinite_values", "contingency:integer_storage", "contingency:pointwise_checked", "contingency:direct_count_checked",
+                 "contingency:additivity_checked", "contingency:threshold=zero", "contingency:constructor_default_used", "manager_raw:ok",
+                 "manager_raw:dtype=uint", "manager_raw:dtype=bool", "views:user_dict:other_order:0-d", "views:user_dict:other_order:n-d",
+                 "views:format_table", "views:model_tie", "views:object_state:ThresholdEventOperator", "views:object_state:BinaryContingencyManager",
+                 "views:transformed_view:kept=", "views:object_state_sequences_completed", "dataset:binary_discretise", "dataset:contingency"]
 
 OPNAME = {operator.ge: "ge", operator.gt: "gt", operator.le: "le", operator.lt: "lt", operator.eq: "eq", operator.ne: "ne"}
 STR_MODES = [">=", ">", "<=", "<", "==", "!="]
@@ -63,6 +81,11 @@ def P():
 def model_ok(ctx):
     b = getattr(ctx, "build", None) or {}
     return bool(b.get("driver_ok")) and "C08" not in (b.get("excluded_models") or [])
+
+
+def views_model_ok(ctx):
+    b = getattr(ctx, "build", None) or {}
+    return bool(b.get("driver_ok")) and "C08_views" not in (b.get("excluded_models") or [])
 
 
 def py_rel(k, x, c, tol):
@@ -313,6 +336,19 @@ def inject_near(rng, da, thresholds, dtype, p=0.5):
     return out
 
 
+INT_DTYPES = ["uint8", "uint16", "uint32", "uint64", "int8", "int16", "int32", "int64"]
+EVENT_DTYPES = INT_DTYPES + ["bool", "float32", "float16"]
+
+
+def inject_inf(rng, da, p=0.25):
+    """replace a random subset of the non-NaN cells by +inf / -inf (valid data, not missing data)"""
+    vals = np.asarray(da.values, float).copy().ravel()
+    for n in range(vals.size):
+        if not np.isnan(vals[n]) and rng.random() < p:
+            vals[n] = rng.choice([INF, -INF])
+    return da.copy(data=vals.reshape(da.shape))
+
+
 def discretise_precision(ctx, i, use_model=True):
     proc = P()
     rng = ctx.rng
@@ -419,6 +455,10 @@ def contingency(ctx, i, use_model=True):
     if rng.random() < 0.2 and fcst.dims:      # a whole slice missing: its kept counts are 0, not NaN
         d = rng.choice(list(fcst.dims))
         fcst = fcst.where(fcst[d] != fcst[d].values[rng.randrange(fcst.sizes[d])])
+    # infinite values are valid data: an event for `>= t`, never missing
+    if rng.random() < 0.12:
+        fcst, obs = inject_inf(rng, fcst), inject_inf(rng, obs)
+        ctx.count("contingency:infinite_values")
     # constructor arguments (None = not passed); the per-call arguments default to them
     ctor_t = rng.choice([None, None, None, 0, 0.0, 0.5, -1.0, 0.0, 0.3, 0.001])
     ctor_op = rng.choice([None, None, None, operator.gt, operator.lt, operator.ge])
@@ -447,6 +487,17 @@ def contingency(ctx, i, use_model=True):
             # double is a tie for the code only; the predicates below (numpy on the doubles) decide such cases
             use_model = False
             ctx.count("contingency:tie_with_signature_default(model not consulted)")
+    # integer storage (signed, unsigned, narrow): the event status only compares, so the values decide, not their storage type
+    for name in ("fcst", "obs"):
+        arr = fcst if name == "fcst" else obs
+        v = np.asarray(arr.values, float)
+        if rng.random() < 0.1 and np.isfinite(v).all():
+            sty = rng.choice(INT_DTYPES)
+            lo = 0 if sty.startswith("u") else -2
+            arr = arr.copy(data=np.array([rng.randint(lo, 3) for _ in range(v.size)]).reshape(v.shape).astype(sty))
+            fcst, obs = (arr, obs) if name == "fcst" else (fcst, arr)
+            ctx.count("contingency:integer_storage")
+            ctx.count("contingency:dtype=" + sty)
     rd, pd = gens.rand_dimspec(rng, sorted(set(fcst.dims) | set(obs.dims)), allow_bad=True)
     kw = {}
     if rd is not None:
@@ -457,7 +508,7 @@ def contingency(ctx, i, use_model=True):
     desc = {"fn": "ThresholdEventOperator.make_contingency_manager" if which == "manager" else "ThresholdEventOperator.make_event_tables",
             "fcst": gens.da_repr(fcst), "obs": gens.da_repr(obs), "event_threshold": t, "op_fn": None if op is None else OPNAME[op],
             "constructor": {"default_event_threshold": ctor_t, "default_op_fn": None if ctor_op is None else OPNAME[ctor_op]},
-            "reduce_dims": rd, "preserve_dims": pd}
+            "reduce_dims": rd, "preserve_dims": pd, "fcst_dtype": str(fcst.dtype), "obs_dtype": str(obs.dtype)}
     m = ctx.model("c08_threshold_operator", enc_list([enc_str(which), enc_opt(ctor_t, enc_num), "none" if ctor_op is None else OPNAME[ctor_op],
                                                       enc_arr(fcst), enc_arr(obs), enc_opt(t, enc_num), "none" if op is None else OPNAME[op],
                                                       enc_dimspec(rd), enc_dimspec(pd)])) if use_model else None
@@ -555,13 +606,24 @@ def manager_raw(ctx, use_model=True):
     vals = [0.0, 1.0, 0.0, 1.0, 2.0, 0.5] if rng.random() < 0.3 else [0.0, 1.0]
     fe = gens.rand_da(rng, sizes, values=vals, nan_p=0.2 if rng.random() < 0.6 else 0.0)
     oe = gens.rand_da(rng, sizes, dims=gens.sub_dims(rng, sizes, p_drop=0.2), values=vals, nan_p=0.2 if rng.random() < 0.6 else 0.0)
+    # binary event tables are often stored compactly (bool / unsigned 8-bit masks ...): fcst and obs independently, so mixed too
+    dts = []
+    for arr in (fe, oe):
+        v = np.asarray(arr.values, float)
+        dt = "float64"
+        if rng.random() < 0.45 and not np.isnan(v).any() and (v == np.floor(v)).all():
+            dt = rng.choice(EVENT_DTYPES if set(v.ravel().tolist()) <= {0.0, 1.0} else [d for d in EVENT_DTYPES if d != "bool"])
+        dts.append(dt)
+        ctx.count("manager_raw:dtype=" + dt)
+    fe, oe = fe.astype(dts[0]), oe.astype(dts[1])
     rd, pd = gens.rand_dimspec(rng, list(sizes), allow_bad=True)
     kw = {}
     if rd is not None:
         kw["reduce_dims"] = rd
     if pd is not None:
         kw["preserve_dims"] = pd
-    desc = {"fn": "BinaryContingencyManager.transform", "fcst_events": gens.da_repr(fe), "obs_events": gens.da_repr(oe), "reduce_dims": rd, "preserve_dims": pd}
+    desc = {"fn": "BinaryContingencyManager.transform", "fcst_events": gens.da_repr(fe), "obs_events": gens.da_repr(oe), "reduce_dims": rd, "preserve_dims": pd,
+            "fcst_events_dtype": dts[0], "obs_events_dtype": dts[1]}
     st, basic = core.call_impl(lambda: BinaryContingencyManager(fe, oe).transform(**kw))
     mc = ctx.model("c08_manager_counts", enc_list([enc_arr(fe), enc_arr(oe), enc_dimspec(rd), enc_dimspec(pd)])) if use_model else None
     ctx.case(desc, st == "ok")
@@ -599,6 +661,345 @@ def manager_raw(ctx, use_model=True):
             ctx.tie_fail(f"{key} vs model: {why}", desc, str(np.asarray(counts[key].values).tolist())[:300], str(mt)[:300])
 
 
+# ----------------------------------------------------------------------------------------------
+# round 4: the views of ONE manager (get_counts, get_table, format_table, its metrics) report the same counts under the same
+# labels -- whatever the key order of a user-supplied counts dict -- and stay what they were after other calls on the object
+# ----------------------------------------------------------------------------------------------
+FORMAT_CELLS = [("Positive Forecast", "Positive Observed", "tp_count"), ("Positive Forecast", "Negative Observed", "fp_count"),
+                ("Negative Forecast", "Positive Observed", "fn_count"), ("Negative Forecast", "Negative Observed", "tn_count")]
+
+
+def expected_keep(all_dims, rd, pd):
+    """dimensions a valid reduce_dims / preserve_dims request keeps (the documented rule, restated independently)"""
+    if pd is not None:
+        return set(all_dims) if pd == "all" else ({pd} if isinstance(pd, str) else set(pd))
+    if rd is None or rd == "all":
+        return set()
+    return set(all_dims) - ({rd} if isinstance(rd, str) else set(rd))
+
+
+def same_count(a, e):
+    """count array a (implementation) equals the expected e: same dims (as sets), same labels, same values (NaN = NaN)"""
+    if not isinstance(a, xr.DataArray) or set(a.dims) != set(e.dims):
+        return False
+    try:
+        return bool(np.array_equal(np.asarray(a.values, float), np.asarray(like(e, a).values, float), equal_nan=True))
+    except (KeyError, ValueError):
+        return False
+
+
+def vals(a):
+    return np.asarray(a.values, float).tolist() if isinstance(a, xr.DataArray) else repr(a)[:200]
+
+
+def check_views(ctx, mgr, exp, desc, when, key_order=None):
+    """get_counts(), get_table() and -- for a single table -- format_table() of the manager `mgr` report the count exp[label] under
+    every label.  -> True when all views agree"""
+    desc = dict(desc, when=when)
+    st, counts = core.call_impl(mgr.get_counts)
+    st2, table = core.call_impl(mgr.get_table)
+    if st != "ok" or st2 != "ok":
+        ctx.violation("get_counts() / get_table() raises", desc, "counts", counts if st != "ok" else table)
+        return False
+    ok = True
+    labels = [str(x) for x in np.asarray(table["contingency"].values).tolist()] if "contingency" in table.coords else None
+    if labels is None or sorted(labels) != sorted(COUNT_KEYS):
+        ctx.violation("the 'contingency' coordinate of get_table() is not the five count labels", desc, sorted(COUNT_KEYS), labels)
+        return False
+    for key in COUNT_KEYS:
+        if key not in counts or not same_count(counts[key], exp[key]):
+            ctx.violation(f"get_counts()['{key}'] of the manager is not the count of that class ({when})", desc, vals(exp[key]),
+                          {"dims": list(getattr(counts.get(key), "dims", [])), "values": vals(counts.get(key))})
+            ok = False
+        cell = table.sel(contingency=key, drop=True)
+        if not same_count(cell, exp[key]):
+            ctx.violation(f"get_table() reports under the label '{key}' something else than the count of that class ({when})", desc, vals(exp[key]),
+                          {"dims": list(cell.dims), "values": vals(cell), "labels_in_table_order": labels})
+            ok = False
+    if all(exp[k].ndim == 0 for k in COUNT_KEYS) and bool(np.isfinite([float(exp[k]) for k in COUNT_KEYS]).all()):
+        import warnings
+        with warnings.catch_warnings():
+            warnings.simplefilter("ignore")
+            st, df = core.call_impl(mgr.format_table)
+        ctx.count("views:format_table")
+        if st != "ok" or not hasattr(df, "loc"):
+            ctx.violation("format_table() of a single table does not return the 2x2 frame", desc, "DataFrame", df if st != "ok" else type(df).__name__)
+            return False
+        got = {key: float(df.loc[r, c]) for r, c, key in FORMAT_CELLS}
+        got["total_count"] = float(df.loc["Total", "Total"])
+        want = {key: float(exp[key]) for key in COUNT_KEYS}
+        if got != want:
+            # known finding (unchanged code): format_table reads the table by POSITION (entries 0, 2, 3, 1 of the dict's own order), assuming
+            # the key order of _get_counts.  Only exactly that frame, for a dict in another key order, is the known deviation.
+            known = None
+            if key_order is not None and list(key_order[:4]) != COUNT_KEYS[:4]:
+                pos = {"tp_count": float(exp[key_order[0]]), "fp_count": float(exp[key_order[2]]), "fn_count": float(exp[key_order[3]]),
+                       "tn_count": float(exp[key_order[1]])}
+                pos["total_count"] = pos["tp_count"] + pos["fp_count"] + pos["fn_count"] + pos["tn_count"]
+                if got == pos:
+                    known = "format-table-by-position"
+            ctx.violation(f"format_table() shows counts in the wrong cell of the 2x2 table ({when})", dict(desc, key_order=key_order), want, got, finding_key=known)
+            ok = False
+    return ok
+
+
+def user_dict_views(ctx, i, use_model=True):
+    """BasicContingencyManager built through its public constructor from a user's counts dict, keys in ANY order"""
+    from scores.categorical import BasicContingencyManager
+    rng = ctx.rng
+    keys = rng.sample(COUNT_KEYS, 5) if rng.random() < 0.85 else list(COUNT_KEYS)
+    dtype = rng.choice(["float64", "float64", "int64", "int32"])
+    if rng.random() < 0.55:
+        sizes, dims = {}, []
+    else:
+        sizes = gens.rand_sizes(rng, maxdims=2)
+        dims = list(sizes)
+    cells = {}
+    for k in COUNT_KEYS[:4]:
+        # four different magnitudes, so that no two cells of a table coincide by accident
+        a = gens.rand_da(rng, sizes, dims=list(dims), values=list(range(0, 60)))
+        cells[k] = a.astype(dtype)
+    cells["total_count"] = cells["tp_count"] + cells["tn_count"] + cells["fp_count"] + cells["fn_count"]
+    desc = {"fn": "BasicContingencyManager(counts)", "key_order": keys, "dtype": dtype,
+            "counts": {k: gens.da_repr(cells[k]) if dims else float(cells[k]) for k in COUNT_KEYS}}
+    st, mgr = core.call_impl(lambda: BasicContingencyManager({k: cells[k].copy() for k in keys}))
+    ctx.case(desc)
+    ctx.count("views:user_dict:" + ("canonical_order" if keys == COUNT_KEYS else "other_order") + (":0-d" if not dims else ":n-d"))
+    if i < 1:
+        ctx.sample(desc)
+    if st != "ok":
+        ctx.violation("BasicContingencyManager raises on a counts dict", desc, "manager", mgr)
+        return
+    check_views(ctx, mgr, cells, desc, "manager built from a counts dict", key_order=keys)
+    # tie: the regenerated _make_xr_table / format_table (site C08.views) on the dict's item list against the real table and frame
+    if use_model and not dims:
+        m = ctx.model("c08_views", enc_list([enc_list([enc_str(k), enc_num(float(cells[k]))]) for k in keys]))
+        table = mgr.get_table()
+        got = {"labels": [str(x) for x in table["contingency"].values], "values": [float(x) for x in np.asarray(table.values, float)]}
+        exp = {"labels": [core.dec_str(x) for x in m[0]], "values": [float(core.dec_num(x)) for x in m[1]]}
+        if got != exp:
+            ctx.tie_fail("gen_table_of_counts vs get_table()", desc, got, exp)
+        import warnings
+        with warnings.catch_warnings():
+            warnings.simplefilter("ignore")
+            st, df = core.call_impl(mgr.format_table)
+        if st == "ok" and hasattr(df, "loc"):
+            gotc = [float(df.loc[r, c]) for r, c, _ in FORMAT_CELLS]
+            expc = [None if x == "none" else float(core.dec_num(x)) for x in m[2]]
+            if gotc != expc:
+                ctx.tie_fail("gen_format_cells vs format_table()", desc, gotc, expc)
+        if [core.dec_str(x) for x in m[3]] != COUNT_KEYS:
+            ctx.tie_fail("key order of _get_counts vs the harness", desc, COUNT_KEYS, m[3])
+        ctx.count("views:model_tie")
+    # the metrics read the counts by key: accuracy = (tp + tn) / total on these very counts
+    with np.errstate(all="ignore"):
+        st, acc = core.call_impl(mgr.accuracy)
+        exp = (cells["tp_count"] + cells["tn_count"]) / cells["total_count"]
+    if st != "ok" or not same_count(acc, exp):
+        ctx.violation("accuracy() of a manager built from a counts dict is not (tp + tn) / total of those counts", desc, vals(exp), vals(acc) if st == "ok" else acc)
+
+
+STATE_METRICS = ["accuracy", "probability_of_detection", "frequency_bias", "threat_score"]
+
+
+def rand_valid_request(rng, all_dims):
+    while True:
+        rd, pd = gens.rand_dimspec(rng, sorted(all_dims))
+        if not (rd is not None and pd is not None):
+            return rd, pd
+
+
+def direct_counts_masked(fcst, obs, t, opname, keep):
+    """direct_counts; with NO dimension reduced the five maps are NaN at a pair that is not valid in both (nothing was counted)"""
+    exp = direct_counts(fcst, obs, t, opname, keep)
+    if not ((set(fcst.dims) | set(obs.dims)) - set(keep)):
+        f, o = xr.broadcast(fcst, obs)
+        valid = (f.notnull() & o.notnull())
+        exp = {k: v.where(like(valid, v)) for k, v in exp.items()}
+    return exp
+
+
+def object_state(ctx, i):
+    """a call sequence on ONE BinaryContingencyManager: its own counts / table / metrics are the fully reduced ones before and after
+    every transform(...), each transformed view equals direct counting for its own request, views sum to the manager's counts, and a
+    repeated request gives the same answer"""
+    from scores.categorical import BinaryContingencyManager, ThresholdEventOperator
+    rng = ctx.rng
+    sizes = gens.rand_sizes(rng, mindims=2)
+    fdims = gens.sub_dims(rng, sizes, p_drop=0.1, keep_at_least=1)
+    odims = gens.sub_dims(rng, sizes, p_drop=0.15)
+    nan_p = 0.15 if rng.random() < 0.5 else 0.0
+    via = "ThresholdEventOperator" if rng.random() < 0.65 else "BinaryContingencyManager"
+    if via == "ThresholdEventOperator":
+        fcst = gens.rand_da(rng, sizes, dims=fdims, den=4, bound=2, nan_p=nan_p)
+        obs = gens.rand_da(rng, sizes, dims=odims, den=4, bound=2, nan_p=nan_p)
+        t = rng.choice([0.0, 0, 0.5, -0.5, 1.0, 0.25])
+        op = rng.choice([operator.ge, operator.gt, operator.le, operator.lt])
+        tt, oo = t, OPNAME[op]
+        st, mgr = core.call_impl(lambda: ThresholdEventOperator(default_event_threshold=t, default_op_fn=op).make_contingency_manager(fcst, obs))
+    else:
+        fcst = gens.rand_da(rng, sizes, dims=fdims, values=[0.0, 1.0], nan_p=nan_p)
+        obs = gens.rand_da(rng, sizes, dims=odims, values=[0.0, 1.0], nan_p=nan_p)
+        if nan_p == 0.0 and rng.random() < 0.5:
+            fcst, obs = fcst.astype(rng.choice(EVENT_DTYPES)), obs.astype(rng.choice(EVENT_DTYPES))
+        tt, oo = 1, "eq"      # on 0/1 tables: event <=> value == 1
+        st, mgr = core.call_impl(lambda: BinaryContingencyManager(fcst, obs))
+    all_dims = set(fcst.dims) | set(obs.dims)
+    steps = [rand_valid_request(rng, all_dims) for _ in range(rng.randint(1, 3))]
+    steps.append(steps[0])       # the first request once more at the end
+    desc = {"fn": via, "fcst": gens.da_repr(fcst), "obs": gens.da_repr(obs), "fcst_dtype": str(fcst.dtype), "obs_dtype": str(obs.dtype),
+            "event": f"x {oo} {tt}", "calls": [{"reduce_dims": rd, "preserve_dims": pd} for rd, pd in steps]}
+    ctx.case(desc)
+    ctx.count("views:object_state:" + via)
+    if i < 1:
+        ctx.sample(desc)
+    if st != "ok":
+        ctx.violation("the manager cannot be built", desc, "manager", mgr)
+        return
+    full = direct_counts(fcst, obs, tt, oo, set())
+    if not check_views(ctx, mgr, full, desc, "fresh manager"):
+        return
+
+    def metrics():
+        out = {}
+        with np.errstate(all="ignore"):
+            for m in STATE_METRICS:
+                s, v = core.call_impl(getattr(mgr, m))
+                out[m] = ("err", v) if s != "ok" else (tuple(v.dims), np.asarray(v.values, float).tolist())
+        return out
+
+    tp, fp, fn, tn = (float(full[k]) for k in ("tp_count", "fp_count", "fn_count", "tn_count"))
+    with np.errstate(all="ignore"):
+        want = {"accuracy": np.float64(tp + tn) / np.float64(tp + fp + fn + tn), "probability_of_detection": np.float64(tp) / np.float64(tp + fn),
+                "frequency_bias": np.float64(tp + fp) / np.float64(tp + fn), "threat_score": np.float64(tp) / np.float64(tp + fp + fn)}
+    m0 = metrics()
+    for m in STATE_METRICS:
+        if m0[m][0] != () or not core.close(m0[m][1], float(want[m])):
+            ctx.violation(f"{m}() of the manager is not the score of its fully reduced table", desc, float(want[m]), m0[m])
+            return
+    maps0 = {k: np.asarray(getattr(mgr, k).values, float).copy() for k in ("tp", "tn", "fp", "fn")}
+    first = None
+    for n, (rd, pd) in enumerate(steps):
+        kw = {}
+        if rd is not None:
+            kw["reduce_dims"] = rd
+        if pd is not None:
+            kw["preserve_dims"] = pd
+        when = "transform(" + ", ".join(f"{k}={v!r}" for k, v in kw.items()) + ")"
+        stv, view = core.call_impl(lambda: mgr.transform(**kw))
+        if stv != "ok":
+            ctx.violation("transform raises on a valid request", dict(desc, call=when), "a table", view)
+            return
+        keep = expected_keep(all_dims, rd, pd)
+        exp = direct_counts_masked(fcst, obs, tt, oo, keep)
+        if not check_views(ctx, view, exp, desc, "view returned by call %d: %s" % (n + 1, when)):
+            return
+        ctx.count("views:transformed_view:" + ("kept=" + str(len(keep)) if keep else "fully_reduced"))
+        # what the manager itself reports has not changed
+        if not check_views(ctx, mgr, full, desc, "the manager itself after call %d: %s" % (n + 1, when)):
+            return
+        m1 = metrics()
+        if m1 != m0 and not all((m1[m] == m0[m]) or (m1[m][0] == m0[m][0] and np.array_equal(m1[m][1], m0[m][1], equal_nan=True)) for m in STATE_METRICS):
+            ctx.violation("the scores of the manager itself change after " + when, desc, m0, m1)
+            return
+        for k, v in maps0.items():
+            if not np.array_equal(np.asarray(getattr(mgr, k).values, float), v, equal_nan=True):
+                ctx.violation(f"the {k} map of the manager changes after " + when, desc, v.tolist(), np.asarray(getattr(mgr, k).values, float).tolist())
+                return
+        # additivity against the manager: the view's counts summed over what it kept are the manager's own counts
+        vc, own = view.get_counts(), mgr.get_counts()
+        for key in COUNT_KEYS:
+            s = vc[key].sum(dim=list(vc[key].dims)) if vc[key].dims else vc[key]
+            if not same_count(own[key], s):
+                ctx.violation(f"{key} of the view ({when}) does not sum to the manager's own {key}", desc, vals(s), vals(own[key]))
+                return
+        if n == 0:
+            first = {k: vc[k].copy() for k in COUNT_KEYS}
+        elif n == len(steps) - 1:
+            for key in COUNT_KEYS:
+                if not same_count(vc[key], first[key]):
+                    ctx.violation(f"the same transform request gives another {key} when repeated after other calls", desc, vals(first[key]), vals(vc[key]))
+                    return
+    ctx.count("views:object_state_sequences_completed")
+
+
+# ----------------------------------------------------------------------------------------------
+# round 4: Dataset inputs with several variables whose NaN positions differ: every variable is treated as it is alone
+# ----------------------------------------------------------------------------------------------
+def dataset_inputs(ctx, i):
+    from scores.categorical import ThresholdEventOperator
+    proc = P()
+    rng = ctx.rng
+    sizes = gens.rand_sizes(rng)
+    names = ["u", "v", "w"][:rng.randint(2, 3)]
+
+    def mk():
+        out = {}
+        for n in names:
+            a = gens.rand_da(rng, sizes, den=4, bound=2, nan_p=rng.choice([0.0, 0.2, 0.4]), shuffle=False)
+            out[n] = inject_inf(rng, a, 0.15) if rng.random() < 0.2 else a
+        return xr.Dataset(out)
+    data = mk()
+    which = rng.choice(["binary_discretise", "binary_discretise_proportion", "contingency"])
+    desc = {"fn": which + " on a Dataset", "variables": {n: gens.da_repr(data[n]) for n in names}}
+    ctx.count("dataset:" + which)
+    if which != "contingency":
+        ts, scalar = rand_thresholds(rng)
+        if not all(math.isfinite(t) for t in ([ts] if scalar else ts)) or not (scalar or list(ts) == sorted(ts)):
+            ts, scalar = [0.0, 0.5], False
+        mode = rng.choice(STR_MODES + OP_MODES)
+        tol = rng.choice([None, 0.0, 0.25])
+        kw = {"abs_tolerance": tol, "autosqueeze": rng.random() < 0.4}
+        if which == "binary_discretise_proportion":
+            rd, pd = rand_valid_request(rng, set(sizes))
+            if rd is not None:
+                kw["reduce_dims"] = rd
+            if pd is not None:
+                kw["preserve_dims"] = pd
+        desc.update({"thresholds": ts, "mode": mode_repr(mode), **kw})
+        fn = getattr(proc, which)
+        with np.errstate(all="ignore"):
+            st, out = core.call_impl(fn, data, ts, mode, **kw)
+        ctx.case(desc, st == "ok")
+        if st != "ok":
+            ctx.violation(which + " raises on a Dataset with valid arguments", desc, "Dataset", out)
+            return
+        for n in names:
+            with np.errstate(all="ignore"):
+                st1, one = core.call_impl(fn, data[n], ts, mode, **kw)
+            if st1 != "ok" or n not in out or set(out[n].dims) != set(one.dims) or \
+                    not np.array_equal(np.asarray(out[n].transpose(*one.dims).values, float), np.asarray(one.values, float), equal_nan=True):
+                ctx.violation(f"{which}: variable '{n}' of a Dataset is not treated as it is alone (as a DataArray)", desc,
+                              vals(one) if st1 == "ok" else one, vals(out[n]) if n in out else None)
+                return
+        return
+    other = mk()
+    t = rng.choice([0.0, 0.5, -0.5, 1.0])
+    op = rng.choice([operator.ge, operator.gt, operator.lt])
+    rd, pd = rand_valid_request(rng, set(sizes))
+    kw = {}
+    if rd is not None:
+        kw["reduce_dims"] = rd
+    if pd is not None:
+        kw["preserve_dims"] = pd
+    desc.update({"obs_variables": {n: gens.da_repr(other[n]) for n in names}, "event_threshold": t, "op_fn": OPNAME[op], **kw})
+    teo = ThresholdEventOperator()
+    st, counts = core.call_impl(lambda: teo.make_contingency_manager(data, other, event_threshold=t, op_fn=op).transform(**kw).get_counts())
+    ctx.case(desc, st == "ok")
+    if st != "ok":
+        ctx.violation("the contingency manager raises on Datasets", desc, "counts", counts)
+        return
+    keep = expected_keep(set(sizes), rd, pd)
+    for n in names:
+        exp = direct_counts_masked(data[n], other[n], t, OPNAME[op], keep)
+        for key in COUNT_KEYS:
+            got = counts[key][n] if n in counts[key] else None
+            if got is None or not same_count(got, exp[key]):
+                ctx.violation(f"{key} of variable '{n}' of a Dataset differs from direct counting of that variable's own valid pairs", desc,
+                              vals(exp[key]), vals(got) if got is not None else None)
+                return
+
+
 def body(ctx, use_model):
     kernel_grid(ctx, use_model)
     ctx.exhaustive = True    # the 12 spellings x tolerance x value grid is swept completely
@@ -618,6 +1019,18 @@ def body(ctx, use_model):
         if not ctx.time_left():
             break
         manager_raw(ctx, use_model)
+    for i in range(ctx.n(120, 1200)):
+        if not ctx.time_left():
+            break
+        user_dict_views(ctx, i, use_model and views_model_ok(ctx))
+    for i in range(ctx.n(90, 900)):
+        if not ctx.time_left():
+            break
+        object_state(ctx, i)
+    for i in range(ctx.n(90, 900)):
+        if not ctx.time_left():
+            break
+        dataset_inputs(ctx, i)
 
 
 def run(ctx):
